@@ -17,6 +17,7 @@ import Bpp.BatchScalarsThm
 import Bpp.GenTableThm
 import Bpp.RangeSound
 import Bpp.Hiding
+import Bpp.Extract
 /-! # Property theorems
 
 Only the property statements live here, one block per C-id, each about the **executable** model functions of
@@ -172,6 +173,20 @@ theorem C02_knowledge_sound (I : RangeInst F M) (hn : 0 < I.n) (κ : ℕ) (hN : 
     (hT : ∀ y ∈ SY, ∀ z ∈ SZ y, TreeAcc y I.t I.hb I.Gb κ I.G I.H (Ahat I y z A)) :
     ∀ j < I.m, pn j ≤ vn j ∧ vn j - pn j < 2^I.n :=
   range_proof_sound I hn κ hN hI q vn pn r hvq hpq hp hV A SY SZ hY0 hYc hZc hT
+
+/-- **C02 / C07 (knowledge soundness with extraction of the openings).** Nothing is assumed about the commitments:
+    from a tree of accepting transcripts with `3N+3` non-zero `y`, `4m+3` values of `z` each and the zk-WIP tree
+    below each, and independence of the generators, every commitment is `v_j·hb + Σ_k r_{j,k}·Gb_k` (no component
+    over the vector generators) and `v_j = p_j + k_j` with a natural number `k_j < 2^n`. -/
+theorem C02_knowledge_extract (I : RangeInst F M) (hn : 0 < I.n) (κ : ℕ) (hN : I.n * I.m = 2^κ)
+    (hI : Indep (F := F) (I.n * I.m) I.t I.G I.H I.hb I.Gb)
+    (A : M) (SY : Finset F) (SZ : F → Finset F)
+    (hY0 : ∀ y ∈ SY, y ≠ 0) (hYc : 3 * (I.n * I.m) + 3 ≤ SY.card) (hZc : ∀ y ∈ SY, 4 * I.m + 3 ≤ (SZ y).card)
+    (hT : ∀ y ∈ SY, ∀ z ∈ SZ y, TreeAcc y I.t I.hb I.Gb κ I.G I.H (Ahat I y z A)) :
+    ∃ (v : ℕ → F) (r : ℕ → ℕ → F),
+      (∀ j < I.m, I.V j = v j • I.hb + dot I.t (r j) I.Gb) ∧
+      ∀ j < I.m, ∃ k : ℕ, k < 2^I.n ∧ v j = I.p j + (k : F) :=
+  range_proof_extract I hn κ hN hI A SY SZ hY0 hYc hZc hT
 
 /-- non-vacuity of `C02_knowledge_sound`: a valid witness yields such a tree at every challenge pair -/
 theorem C02_tree_satisfiable (I : RangeInst F M) (hn : 0 < I.n) (κ : ℕ) (hN : I.n * I.m = 2^κ)
